@@ -188,12 +188,16 @@ def _gen_test_script(r, fail, repeat, rounds, decisive_after):
   style = r.choice(["float", "npfloat", "int_ok"]) if nsub == 0 else "named"
   script = []
   insufficient_at = r.randint(0, 3) if r.random() < 0.12 else None
+  crash_at = r.randint(0, 3) if r.random() < 0.04 else None
   shadow = ModelTest(fail, repeat, 1)   # decides which names may be dropped
   droppy = nsub >= 2 and r.random() < 0.35
   for k in range(rounds):
     dec = k >= decisive_after
     if insufficient_at is not None and k == insufficient_at:
       script.append("insufficient")
+      continue
+    if crash_at is not None and k == crash_at:
+      script.append("crash")
       continue
     if nsub == 0:
       p = _script_p(r, fail, repeat, k, dec)
@@ -284,6 +288,8 @@ def _make_stub(tscript, calls):
     entry = scripted_entry(tscript, k)
     if entry == "insufficient":
       raise nist_suite.InsufficientDataError("scripted: not enough data")
+    if entry == "crash":
+      raise RuntimeError("simulated failure inside a statistical test")
     if "single" in entry:
       p = entry["single"]
       if entry.get("style") == "npfloat":
@@ -404,7 +410,7 @@ def scripted_entry(tscript, k):
     return sc[k]
   seen = []
   for x in sc:
-    if x != "insufficient" and "named" in x:
+    if isinstance(x, dict) and "named" in x:
       for nm, _ in x["named"]:
         if nm not in seen:
           seen.append(nm)
@@ -416,8 +422,8 @@ def scripted_entry(tscript, k):
 def _scripted(tscript, k):
   """The result the stub returns on its k-th run, in model form."""
   e = scripted_entry(tscript, k)
-  if e == "insufficient":
-    return "insufficient"
+  if e in ("insufficient", "crash"):
+    return e
   if "single" in e:
     return [("result", e["single"])]
   return [(nm, p) for nm, p in e["named"]]
@@ -440,7 +446,12 @@ def judge_driver(plan, res):
   for i, (op, ev) in enumerate(zip(plan["ops"], res["events"])):
     st["ops"][op["op"]] = st["ops"].get(op["op"], 0) + 1
     if op["op"] == "teststructure":
+      crash_idx = [k for k, e in enumerate(op["test"]["script"])
+                   if e == "crash"]
       if "exc" in ev:
+        if crash_idx and "simulated failure inside" in ev["exc"]:
+          probe("test_fault_propagated")    # the faulted call is not judged
+          continue
         viol.append(_v("driver_raises", i, "teststructure",
                        "TestStructure.Run raised %s" % ev["exc"]))
         continue
@@ -486,6 +497,7 @@ def judge_driver(plan, res):
     ambiguous = False
     faulted = False
     f9_hit = False
+    crashed = False
     if is_source:
       while True:
         if fault_round is not None and expect_pulls == fault_round:
@@ -503,12 +515,15 @@ def judge_driver(plan, res):
           result = _scripted(op["tests"][j], runs[j])
           if result == "insufficient":
             st["insufficient_fired"] += 1
+          if result == "crash":
+            crashed = True
+            break
           runs[j] += 1
           finished[j] = models[j].run(result)
           if models[j].stale_undecided and finished[j] == {False} and \
               runs[j] >= min_rep:
             f9_hit = True
-        if ambiguous:
+        if ambiguous or crashed:
           break
         if all(finished[j] == {True} for j in active):
           break
@@ -521,8 +536,18 @@ def judge_driver(plan, res):
     else:
       for j in active:
         result = _scripted(op["tests"][j], 0)
+        if result == "crash":
+          crashed = True
+          break
         runs[j] = 1
         models[j].run(result)
+    if crashed:
+      probe("test_fault_fired")
+      if "exc" not in ev or "simulated failure inside" not in ev["exc"]:
+        viol.append(_v("test_fault_swallowed", i, op["op"],
+                       "a statistical test raised RuntimeError but %s "
+                       "returned %r" % (op["op"], ev.get("ret"))))
+      continue
     if ambiguous:
       st["ties"] += 1
       probe("near_tie_run_not_judged")
